@@ -66,13 +66,15 @@ def _nonneg_lin(fin, fout):
 # size ladder (tiling / blocking / caching code paths far beyond the exhaustively explored sizes); not part of MODELS: the checks
 # that use them bound the history depth separately
 BIG = {
+    "seq12": lambda: nn.Sequential(*[nn.Linear(8, 8) for _ in range(12)]),  # twelve index-named siblings: '1' is a prefix of '10', '11'
+
     "big_lin": lambda: nn.Sequential(nn.Linear(4096, 1030)),  # 4.2M weights (> 2^22), 1030 rows
     "big_pair": lambda: nn.Sequential(nn.Linear(2048, 2048), nn.ReLU(), nn.Linear(2048, 2048)),  # two layers of the same shape
     "big_conv": lambda: nn.Sequential(nn.Conv2d(130, 1030, 3, padding=1)),  # 1.2M weights
     "big_k25": lambda: _nonneg_lin(16384, 25),  # deep contraction with non-negative operands: integer sums exceed 2^24
     "big_k27": lambda: _nonneg_lin(16384, 27),
 }
-BIG_SHAPE = {"big_lin": (2, 4096), "big_pair": (2, 2048), "big_conv": (1, 130, 4, 4), "big_k25": (2, 48), "big_k27": (2, 48)}
+BIG_SHAPE = {"seq12": (3, 8), "big_lin": (2, 4096), "big_pair": (2, 2048), "big_conv": (1, 130, 4, 4), "big_k25": (2, 48), "big_k27": (2, 48)}
 IN_SHAPE = {"lin": (3, 16), "mlp": (3, 16), "ln": (2, 2, 16), "conv": (2, 2, 6, 6), "wide": (3, 160), "w256": (2, 256), "idiv": (3, 16), "imul_t": (3, 16)}
 
 
